@@ -2,6 +2,8 @@ package main
 
 import (
 	"fmt"
+	"go/constant"
+	"go/token"
 	"go/types"
 	"sort"
 	"strings"
@@ -209,8 +211,133 @@ func ruleLegacy(c *Ctx) []Ob {
 			probs = append(probs, "no strconv.ParseUint(env, 0, 64)")
 		}
 		s.check(len(dedup(probs)) == 0, "opts:effects", "-", "internal/opts only initialises its own variables, parsing with ParseUint(env, 0, 64)", "internal/opts: "+strings.Join(dedup(probs), "; "))
+		// the built-in default is itself a valid setting: a deployment that exports the default explicitly behaves as one that
+		// sets nothing. The parser refuses a value by comparing it with a bound parameter on the way to a panic; every call
+		// site's default constant, put in the place of the parsed value, must not take that edge.
+		for _, pf := range c.ModuleFuncs(pkgOpts) {
+			type bound struct {
+				op    token.Token
+				param int
+				swap  bool
+			}
+			var bounds []bound
+			for _, b := range pf.Blocks {
+				iff, ok := b.Instrs[len(b.Instrs)-1].(*ssa.If)
+				if !ok {
+					continue
+				}
+				bo, ok := iff.Cond.(*ssa.BinOp)
+				if !ok {
+					continue
+				}
+				switch bo.Op {
+				case token.LSS, token.LEQ, token.GTR, token.GEQ:
+				default:
+					continue
+				}
+				for k, pr := range [][2]ssa.Value{{bo.X, bo.Y}, {bo.Y, bo.X}} {
+					prm, ok := pr[1].(*ssa.Parameter)
+					if !ok {
+						continue
+					}
+					if _, isParam := pr[0].(*ssa.Parameter); isParam {
+						continue
+					}
+					if _, isConst := pr[0].(*ssa.Const); isConst {
+						continue
+					}
+					pi := -1
+					for i, q := range pf.Params {
+						if q == prm {
+							pi = i
+						}
+					}
+					// the true edge ends in a panic
+					if pi >= 0 && edgeErrors(b.Succs[0]) {
+						if _, isPanic := lastInstrOfChain(b.Succs[0]).(*ssa.Panic); isPanic {
+							bounds = append(bounds, bound{bo.Op, pi, k == 1})
+						}
+					}
+				}
+			}
+			if len(bounds) == 0 {
+				continue
+			}
+			// the default: the parameter returned when the variable is unset (a parameter that is returned as it is)
+			defIdx := -1
+			for _, b := range pf.Blocks {
+				if ret, ok := b.Instrs[len(b.Instrs)-1].(*ssa.Return); ok && len(ret.Results) == 1 {
+					if prm, ok := ret.Results[0].(*ssa.Parameter); ok {
+						for i, q := range pf.Params {
+							if q == prm {
+								defIdx = i
+							}
+						}
+					}
+				}
+			}
+			if defIdx < 0 {
+				continue
+			}
+			for _, cf := range c.ModuleFuncs(pkgOpts) {
+				for _, b := range cf.Blocks {
+					for _, ins := range b.Instrs {
+						call, ok := ins.(*ssa.Call)
+						if !ok || call.Call.StaticCallee() != pf {
+							continue
+						}
+						key := "opts:default-valid"
+						if k, ok := call.Call.Args[0].(*ssa.Const); ok && k.Value != nil && k.Value.Kind() == constant.String {
+							key += ":" + constant.StringVal(k.Value)
+						}
+						def, ok1 := constInt(call.Call.Args[defIdx])
+						good, why := ok1, "the default is not a constant"
+						for _, bd := range bounds {
+							lim, ok2 := constInt(call.Call.Args[bd.param])
+							if !ok1 || !ok2 {
+								good, why = false, "default or bound is not a constant"
+								continue
+							}
+							x, y := def, lim
+							if bd.swap {
+								x, y = lim, def
+							}
+							refused := false
+							switch bd.op {
+							case token.LSS:
+								refused = x < y
+							case token.LEQ:
+								refused = x <= y
+							case token.GTR:
+								refused = x > y
+							case token.GEQ:
+								refused = x >= y
+							}
+							if refused {
+								good, why = false, fmt.Sprintf("the default %d is refused by the parser's own bound %d (value %s bound panics): exporting the default value explicitly makes every program importing the package panic at start-up", def, lim, bd.op)
+							}
+						}
+						s.check(good, key, c.InstrPos(call), "the built-in default passes the parser's bound", why)
+					}
+				}
+			}
+		}
 	}
 	return s.obs
 }
 
 var _ = types.Typ
+
+func lastInstrOfChain(b *ssa.BasicBlock) ssa.Instruction {
+	seen := map[*ssa.BasicBlock]bool{}
+	for cur := b; cur != nil && !seen[cur]; {
+		seen[cur] = true
+		last := cur.Instrs[len(cur.Instrs)-1]
+		if _, ok := last.(*ssa.Jump); ok {
+			cur = cur.Succs[0]
+			continue
+		}
+		return last
+	}
+	return nil
+}
